@@ -46,9 +46,15 @@ func zzC12Data() map[string]any {
 func VerifC12_AllOrNothing() {
 	entry := zzChoice("entry", 5)
 	cancelled := zzBool("cancelled")
+	late := false
 	var ctx context.Context = zzCtx{}
 	if cancelled {
 		ctx = zzCtx{err: context.Canceled}
+	} else if zzBool("cancelledlater") {
+		// alive at the first k consultations, cancelled afterwards
+		calls := 0
+		ctx = zzLateCtx{alive: zzChoice("alive", 3), calls: &calls}
+		late = true
 	}
 	tpl := NewFS(zzC12FS()).Fill(zzC12Data())
 	file, str := "", ""
@@ -115,6 +121,18 @@ func VerifC12_AllOrNothing() {
 	hWant, hWantErr := healthy(NewFS(zzC12FS()).Fill(zzC12Data()))
 	zzAssert(hErr == nil && hWantErr == nil && hGot == hWant, "C12.sequence.healthy-render-after-a-failure")
 
+	if late {
+		// whether the cancellation is noticed depends on when the engine
+		// looks; what is fixed: an error means nothing was written, success
+		// means the whole document was
+		if err != nil && w.fails == 0 {
+			// (a failing writer has its own clause; here the writer took everything it was given)
+			zzAssert(len(w.got) == 0, "C12.ctx.error-after-output")
+		} else if err == nil && refErr == nil && limit >= len(doc) {
+			zzAssert(string(w.got) == doc, "C12.ok.incomplete-document")
+		}
+		return
+	}
 	if cancelled {
 		zzAssert(err != nil, "C12.ctx.cancelled-must-fail")
 		zzAssert(len(w.got) == 0, "C12.ctx.cancelled-wrote-output")
